@@ -226,13 +226,44 @@ Proof.
   apply sphere_norm. nra.
 Qed.
 
-Lemma circle_loop_sem fuel t : forall ws, msem on_circle (unit_circle_loop fuel t ws).
+(* accepted candidates have 0 < x1^2 + x2^2 < 1: both output components denote real numbers (no 0/0) *)
+Definition on_circle_real (p : list expr * list Z) : Prop :=
+  exists e1 e2 a b, fst p = [e1; e2] /\ evalX e1 = Xreal a /\ evalX e2 = Xreal b /\ a ^ 2 + b ^ 2 = 1.
+
+Lemma xdiv_real a b : b <> 0 -> Xdiv (Xreal a) (Xreal b) = Xreal (a / b).
+Proof. intros H. cbn. unfold Xdiv'. destruct (is_zero_spec b); [contradiction|reflexivity]. Qed.
+
+Lemma circle_out_real x1 x2 r1 r2 ws : evalX x1 = Xreal r1 -> evalX x2 = Xreal r2 ->
+  r1 * r1 + r2 * r2 <> 0 -> on_circle_real (circle_out x1 x2, ws).
+Proof.
+  intros H1 H2 Nz. unfold circle_out.
+  exists ((x1 *. x1 -. x2 *. x2) /. (x1 *. x1 +. x2 *. x2)), (two *. x1 *. x2 /. (x1 *. x1 +. x2 *. x2)).
+  exists ((r1 * r1 - r2 * r2) / (r1 * r1 + r2 * r2)), (2 * r1 * r2 / (r1 * r1 + r2 * r2)).
+  split; [reflexivity|]. split; [|split].
+  - cbn [evalX xbin]. rewrite H1, H2. cbn [Xmul Xadd Xsub]. apply xdiv_real. exact Nz.
+  - cbn [evalX xbin]. rewrite H1, H2, two_eval. cbn [Xmul Xadd Xsub]. apply xdiv_real. exact Nz.
+  - apply circle_norm. exact Nz.
+Qed.
+
+Lemma circle_loop_sem_real fuel t : forall ws, msem on_circle_real (unit_circle_loop fuel t ws).
 Proof.
   induction fuel as [|f IH]; intros ws; [exact I|].
   destruct ws as [|w1 [|w2 ws]]; try exact I.
   cbn [unit_circle_loop unit_disc_loop unit_sphere_loop unit_ball_loop sbind draw_pm1 next_word sret sask bind msem fst]. intros x y Hx Hy.
   destruct (rcmp CLt x y); cbn [unit_circle_loop unit_disc_loop unit_sphere_loop unit_ball_loop sbind draw_pm1 next_word sret sask bind msem fst]; [|apply IH].
-  eapply circle_out_on; apply u_pm1_eval.
+  intros x' y' Hx' Hy'.
+  destruct (rcmp CGt x' y') eqn:C; cbn [unit_circle_loop unit_disc_loop unit_sphere_loop unit_ball_loop sbind draw_pm1 next_word sret sask bind msem fst]; [|apply IH].
+  rewrite (sq_sum_eval _ _ _ _ (u_pm1_eval t w1) (u_pm1_eval t w2)) in Hx'. rewrite num_eval in Hy'.
+  apply Xreal_eq in Hx', Hy'. subst x' y'.
+  eapply circle_out_real; try apply u_pm1_eval.
+  unfold rcmp in C. destruct (Rlt_dec 0 (u_pm1_R t w1 * u_pm1_R t w1 + u_pm1_R t w2 * u_pm1_R t w2)); [lra|discriminate C].
+Qed.
+
+Lemma circle_loop_sem fuel t : forall ws, msem on_circle (unit_circle_loop fuel t ws).
+Proof.
+  intros ws. eapply msem_mono; [|apply circle_loop_sem_real].
+  intros [out rest] (e1 & e2 & a & b & E & Ha & Hb & N). exists e1, e2. split; [exact E|].
+  intros a' b' Ha' Hb'. rewrite Ha in Ha'. rewrite Hb in Hb'. apply Xreal_eq in Ha', Hb'. subst. exact N.
 Qed.
 
 Lemma disc_loop_sem fuel t : forall ws, msem in_disc (unit_disc_loop fuel t ws).
@@ -273,7 +304,7 @@ Qed.
 (* every result of the model of UnitCircle has two components; when they denote reals, the point is on the circle *)
 Theorem unit_circle_on_circle t ws out rest : evals (unit_circle t ws) (out, rest) ->
   exists e1 e2, out = [e1; e2] /\ forall a b, evalX e1 = Xreal a -> evalX e2 = Xreal b -> a ^ 2 + b ^ 2 = 1.
-Proof. intros E. exact (msem_elim _ _ _ (circle_loop_sem 64 t ws) E). Qed.
+Proof. intros E. unfold unit_circle in E. exact (msem_elim on_circle _ (out, rest) (circle_loop_sem 64 t ws) E). Qed.
 
 Theorem unit_sphere_on_sphere t ws out rest : evals (unit_sphere t ws) (out, rest) ->
   exists e1 e2 e3, out = [e1; e2; e3] /\
@@ -317,23 +348,36 @@ Proof.
   injection Eq as -> -> ->. auto.
 Qed.
 
-(* the hypothesis "the components denote real numbers" cannot be dropped for UnitCircle: when both draws
-   are exactly 0 (words with top bits 1000..0) the point (0,0) is accepted (0 < 1) and both components
-   are 0/0 — the crate returns [NaN, NaN] on these words (probability 2^-46 for f32, 2^-104 for f64) *)
-Theorem circle_nan_witness t : exists out,
-  evals (unit_circle t [2 ^ 63; 2 ^ 63]%Z) (out, []) /\ Forall (fun e => evalX e = Xnan) out.
+(* since the origin is rejected (fix 4622ae6 in the crate), EVERY result of UnitCircle consists of two real numbers on the circle:
+   the hypothesis "the components denote real numbers" of unit_circle_norm is always met — no NaN *)
+Theorem unit_circle_real t ws out rest : evals (unit_circle t ws) (out, rest) ->
+  exists e1 e2 a b, out = [e1; e2] /\ evalX e1 = Xreal a /\ evalX e2 = Xreal b /\ a ^ 2 + b ^ 2 = 1.
+Proof. intros E. unfold unit_circle in E. exact (msem_elim on_circle_real _ (out, rest) (circle_loop_sem_real 64 t ws) E). Qed.
+
+(* the candidate (0,0) (both words with top bits 1000..0) is rejected: the sampler goes on to the next two words *)
+Lemma evals_ask_inv {A} c a b (k : bool -> run A) v x y :
+  evals (Ask c a b k) v -> evalX a = Xreal x -> evalX b = Xreal y -> evals (k (rcmp c x y)) v.
+Proof.
+  intros E Ha Hb. inversion E as [| c' a' b' k' x' y' v' Hx Hy E1 |].
+  rewrite Ha in Hx. rewrite Hb in Hy. apply Xreal_eq in Hx, Hy. subst x' y'. exact E1.
+Qed.
+Lemma circle_loop_origin f t ws out :
+  evals (unit_circle_loop (S f) t (2 ^ 63 :: 2 ^ 63 :: ws)%Z) out <-> evals (unit_circle_loop f t ws) out.
 Proof.
   assert (E0 : evalX (u_pm1 t (2 ^ 63)) = Xreal 0).
   { rewrite u_pm1_eval. f_equal. destruct t; unfold u_pm1_R, hi32.
     - change (2 ^ 63 / 2 ^ 32 / 2 ^ 9 - 2 ^ 22)%Z with 0%Z. apply Rmult_0_l.
     - change (2 ^ 63 / 2 ^ 12 - 2 ^ 51)%Z with 0%Z. apply Rmult_0_l. }
   pose proof (sq_sum_eval _ _ _ _ E0 E0) as ES.
-  exists (circle_out (u_pm1 t (2 ^ 63)) (u_pm1 t (2 ^ 63))). split.
-  - unfold unit_circle. cbn [unit_circle_loop sbind draw_pm1 next_word sret sask bind].
-    eapply EvAsk; [exact ES|apply one_eval|].
-    replace (rcmp CLt (0 * 0 + 0 * 0) 1) with true by (unfold rcmp; destruct (Rlt_dec (0 * 0 + 0 * 0) 1); [reflexivity|lra]).
-    constructor.
-  - unfold circle_out. cbn [evalX xbin] in ES.
-    repeat constructor; cbn [evalX xbin]; rewrite ES, E0; cbn; unfold Xdiv';
-      (destruct (is_zero_spec (0 * 0 + 0 * 0)) as [_|N]; [reflexivity|exfalso; apply N; ring]).
+  assert (C1 : rcmp CLt (0 * 0 + 0 * 0) 1 = true) by (unfold rcmp; destruct (Rlt_dec (0 * 0 + 0 * 0) 1); [reflexivity|lra]).
+  assert (C2 : rcmp CGt (0 * 0 + 0 * 0) 0 = false) by (unfold rcmp; destruct (Rlt_dec 0 (0 * 0 + 0 * 0)); [lra|reflexivity]).
+  cbn [unit_circle_loop sbind draw_pm1 next_word sret sask bind]. split.
+  - intros E. pose proof (evals_ask_inv _ _ _ _ _ _ _ E ES one_eval) as E1. cbv beta in E1. rewrite C1 in E1.
+    cbn [sbind sask sret bind] in E1.
+    pose proof (evals_ask_inv _ _ _ _ _ _ _ E1 ES (num_eval 0)) as E2. cbv beta in E2. rewrite C2 in E2. exact E2.
+  - intros E. eapply EvAsk; [exact ES|apply one_eval|]. rewrite C1. cbn [sbind sask sret bind].
+    eapply EvAsk; [exact ES|apply num_eval|]. rewrite C2. exact E.
 Qed.
+Theorem circle_origin_rejected t ws out :
+  evals (unit_circle t (2 ^ 63 :: 2 ^ 63 :: ws)%Z) out <-> evals (unit_circle_loop 63 t ws) out.
+Proof. exact (circle_loop_origin 63 t ws out). Qed.
